@@ -191,6 +191,7 @@ def check_model(ctx: Ctx, base: dict, doc: dict, edits: List[dict], seed: int, b
                     mini(tvgen.value_strategy(sub.objects, root, cfg), budget["value_cases"], (seed, "C06", name, valuecheck.root_name(root)), mk(name, body))
             # C10 on the classes of the touched roots
             keys = [r for r in roots if r[0] in ("struct", "msg")][:60]
+            keys += [k for k in c10.class_keys(sub) if k[0] == "and"]   # every 'and' class of the evolved model
             if keys:
                 r10 = c10.check_keys(sub, keys, seed, budget["c10_k"])
                 stats["c10_cases"] += r10["evaluations"]
